@@ -503,14 +503,13 @@ class SymBytes:
         if len(self.chunks) == 1 and self.chunks[0].kind != "lit":
             return self.chunks[0].at(it)
         res = z3.IntVal(0)
-        starts = []
         s = z3.IntVal(0)
+        pieces = []
         for c in self.chunks:
-            starts.append(s)
-            s = s + c.zlen()
-        for c, st in reversed(list(zip(self.chunks, starts))):
-            res = z3.If(it >= st, c.at(z3.simplify(it - st)), res) if c is not self.chunks[0] else \
-                z3.If(it < c.zlen(), c.at(it), res) if len(self.chunks) > 1 else c.at(it)
+            pieces.append((s, c))
+            s = z3.simplify(s + c.zlen())
+        for st, c in reversed(pieces):
+            res = z3.If(z3.And(it >= st, it < st + c.zlen()), c.at(z3.simplify(it - st)), res)
         return z3.simplify(res)
 
     def as_array(self):
